@@ -488,6 +488,40 @@ fn main() {
                     Err(_) => out.push(json!({"status":"panic"})),
                 }
             }
+            "syscall_refusal" => {
+                // hand-built MASTs with a SYSCALL node whose target is not a kernel procedure: (a) the hash of
+                // an ordinary procedure of the program, (b) the reserved hash of the dyn block with the hash of
+                // an ordinary procedure on top of the stack.  Both must end in SyscallTargetNotInKernel.
+                use miden_core::code_blocks::Dyn;
+                use miden_core::CodeBlockTable;
+                let r = panic::catch_unwind(panic::AssertUnwindSafe(|| -> Value {
+                    let mut outcomes: Vec<Value> = vec![];
+                    for variant in ["non_kernel_hash", "dyn_hash"] {
+                        let kernel_proc = CodeBlock::new_span(vec![Operation::Noop]);
+                        let kernel = miden_core::Kernel::new(&[kernel_proc.hash()]).unwrap();
+                        let user_proc = CodeBlock::new_span(vec![Operation::Push(Felt::new(99)), Operation::Pad, Operation::MStore, Operation::Drop]);
+                        let h = user_proc.hash();
+                        let target = if variant == "dyn_hash" { Dyn::dyn_hash() } else { h };
+                        let push_hash = CodeBlock::new_span(vec![Operation::Push(h[0]), Operation::Push(h[1]), Operation::Push(h[2]), Operation::Push(h[3])]);
+                        let cleanup = CodeBlock::new_span(vec![Operation::Drop, Operation::Drop, Operation::Drop, Operation::Drop]);
+                        let root = CodeBlock::new_join([CodeBlock::new_join([push_hash, CodeBlock::new_syscall(target)]), cleanup]);
+                        let mut cb = CodeBlockTable::default();
+                        cb.insert(kernel_proc);
+                        cb.insert(user_proc);
+                        let program = Program::with_kernel(root, kernel, cb);
+                        let res = miden_processor::execute(&program, StackInputs::default(), DefaultHost::default(), ExecutionOptions::default());
+                        outcomes.push(match res {
+                            Ok(_) => json!({"variant": variant, "outcome": "completed"}),
+                            Err(e) => json!({"variant": variant, "outcome": "error", "error": format!("{e:?}").chars().take(60).collect::<String>()}),
+                        });
+                    }
+                    json!({"status":"ok","outcomes": outcomes})
+                }));
+                match r {
+                    Ok(v) => out.push(v),
+                    Err(_) => out.push(json!({"status":"panic"})),
+                }
+            }
             "step_iter" => {
                 // forward walk of a real execution through VmStateIterator, then for every t the history
                 // "next up to t, k times back, 3 times next": every re-reported state must equal the forward
